@@ -794,7 +794,7 @@ def sync_check(prop, tier, replay):
     edges = []
     cfg = sync_cfg(wd, "sim", dict(base, Deviations=dev_set(devs_on), EmitEdges="TRUE", ScanLimit="32"),
                    invariants=False, properties=False)
-    vlib.run_tlc("MC_Sync", cfg, prop + "s", coverage=False, workers=1, simulate=(nsim * 6, 46),
+    vlib.run_tlc("MC_Sync", cfg, prop + "s", coverage=False, workers=1, simulate=(nsim * (6 if tier == "quick" else 2), 46),
                  timeout_s=900, tag_sink=lambda tag, obj: edges.append(obj) if tag == "EDGE" else None)
     if not edges:
         raise ToolError("TLC emitted no behaviours")
